@@ -52,28 +52,34 @@ type Stream struct {
 	// -1 = never).  Requires Ctx.
 	StallAt int
 	Ctx     context.Context
+	// TransientErrAt: the read that starts at this offset fails once with a
+	// *transient* injected error and delivers nothing; later reads carry on
+	// with the data (-1 = never).  io.Reader allows this; iotest.TimeoutReader
+	// does it.
+	TransientErrAt     int
+	TransientDelivered bool
 	// CloseErr is returned by Close.
 	CloseErr error
 	// Cancellable makes parked reads give up when Ctx ends (response bodies).
 	Cancellable bool
 
-	Pos             int
-	TermDelivered   bool
-	SawEOFByRead    bool // a read returned io.EOF (alone or with data)
-	Closed          int
-	ReadsAfterClose int
-	Reads           int
-	PosAtFirstClose int
+	Pos               int
+	TermDelivered     bool
+	SawEOFByRead      bool // a read returned io.EOF (alone or with data)
+	Closed            int
+	ReadsAfterClose   int
+	Reads             int
+	PosAtFirstClose   int
 	TermBeforeClose   bool // the terminal condition had been delivered when the first Close arrived
 	CtxErrBeforeClose bool // a read had ended with the context's error before the first Close
 	ZeroReadDelivered bool
 	CtxErrDelivered   bool
-	firstDone       bool
-	nilBuf          bool
+	firstDone         bool
+	nilBuf            bool
 }
 
 func NewStream(env *Env, name string, data []byte) *Stream {
-	return &Stream{Env: env, Name: name, Data: data, StallAt: -1}
+	return &Stream{Env: env, Name: name, Data: data, StallAt: -1, TransientErrAt: -1}
 }
 
 func (s *Stream) tag() string {
@@ -102,10 +108,11 @@ func (s *Stream) Remaining() int { return len(s.Data) - s.Pos }
 
 func (s *Stream) Read(p []byte) (int, error) {
 	var (
-		n     int
-		err   error
-		stall bool
-		zero  bool
+		n         int
+		err       error
+		stall     bool
+		zero      bool
+		transient bool
 	)
 	op := s.Env.Begin(s.Name, "read", s.opCtx(), func(t *Tape) {
 		if s.Closed > 0 {
@@ -119,6 +126,10 @@ func (s *Stream) Read(p []byte) (int, error) {
 			return
 		}
 		rem := s.Remaining()
+		if s.TransientErrAt >= 0 && s.Pos == s.TransientErrAt && !s.TransientDelivered && !s.TermDelivered {
+			transient = true
+			return
+		}
 		if rem == 0 || s.TermDelivered {
 			return
 		}
@@ -175,6 +186,11 @@ func (s *Stream) Read(p []byte) (int, error) {
 		<-s.Ctx.Done()
 		s.CtxErrDelivered = true
 		return 0, s.Ctx.Err()
+	case transient:
+		s.TransientDelivered = true
+		s.Env.Fault("transient-read-error" + s.tag())
+		op.End("0,transient error at %d", s.Pos)
+		return 0, &InjectedError{What: "transient read error (timeout)"}
 	case zero:
 		s.Env.Fault("zero-length-read")
 		s.ZeroReadDelivered = true
